@@ -279,7 +279,7 @@ class C02(Check):
                   'differently stored String objects: heap, default-constructed, attached slices). x = x: model and code carry '
                   'the self-assignment guard (fixes/C02/01); self-assignment histories are generated when the tree carries the '
                   'guard or with VERIF_C02_SELF_ASSIGN=1. Value type int / default-constructed 77 for PoolMap; element '
-                  'construction/destruction counts belong to C04. After 400 crashes of the implementation in one run the remaining '
+                  'construction/destruction counts belong to C04. After 400 crashes (or 60 watchdog timeouts of 2 s) of the implementation in one run the remaining '
                   'cases are not run.')
     rule = ('case = history of up to ~70 operations over 1-3 container variables of one kind (HashMap<K,int>, HashSet<K>, '
             'PoolMap<K,Val>), K in {int32,int64,uint32,const void*,String}, capacities from {0,1,2,3,7,64,500} (independently per '
@@ -368,18 +368,19 @@ class C02(Check):
         return fails
 
     crash_total = 0
-    per_case_timeout = 3      # a case takes milliseconds; a corrupted chain can make the code loop for ever
+    timeout_total = 0
+    per_case_timeout = 2      # a case takes milliseconds; a corrupted chain can make the code loop for ever
 
     def run_impl(self, cases, tag='impl'):
         # chunks of 350 cases: a broken tree may crash on most cases, and the shared runner gives up after 400
         # restarts per call - with chunks every crash still ends in a VIOLATION with a concrete failing input.
-        # Every crash restarts the harness (slow): after 400 crashes over the whole run the remaining cases are
+        # Every crash restarts the harness (slow): after 400 crashes (or 60 watchdog timeouts) over the whole run the remaining cases are
         # not run (marked `! notrun`, which the framework drops from the stream) - the failing inputs are there by then.
         res, crashes = [], {}
         shrinking = tag.startswith('shr_')
         for off in range(0, len(cases), 350):
             chunk = cases[off:off + 350]
-            if not shrinking and self.crash_total > 400:
+            if not shrinking and (self.crash_total > 400 or self.timeout_total > 60):
                 res += [['! notrun'] for _ in chunk]
                 continue
             # symbolize=0: a sanitizer report is classified by its headline; symbolizing the stack costs ~1 s per crash
@@ -392,7 +393,12 @@ class C02(Check):
                 crashes[off + k] = v
             if not shrinking:
                 self.crash_total += len(c)
+                self.timeout_total += sum(1 for v in c.values() if v[0] == 'timeout')
         return res, crashes
+
+    def shrink(self, case, pred, budget=400):
+        # a candidate on which the broken code loops costs the whole watchdog time
+        return Check.shrink(self, case, pred, budget=min(budget, 150))
 
     def nontrivial(self, case, obs):
         # a chain of length >= 2 was observed in the implementation's bucket dump, and something was unlinked
